@@ -79,3 +79,15 @@ Theorem C16_failing_step_changes_no_status : forall c inst u st n b view s,
                    match oc with inr oe => paused <- maybe_pause c inst n oe u ctl ;; if (paused : bool) then ret tt else fail EGen | inl _ => ret tt end) s)).
 Proof. exact failing_step_function_changes_no_status. Qed.
 Print Assumptions C16_failing_step_changes_no_status.
+
+(* A FUNCTION NEVER RUNS ON A VERSION OLDER THAN THE ANNOUNCEMENT IT HANDLES, for EVERY state (a stale-read fault on the lookup
+   included): when the store answers with a lower version than the event carries, the step consumer invokes nothing and writes
+   nothing — its final state is the state right after the lookup — and returns an error, so the event is retried until the
+   store has caught up and the function then sees the persisted object (the same fact as C04_future_retry, read for C16's
+   "every function sees the persisted object"; monitored on stale-read scenarios of step consumers) *)
+From WF Require Import proofs.HandlerFacts.
+Theorem C16_never_on_a_version_older_than_the_announcement : forall c inst u st fn n e s r s1,
+  p_lookup (e_run e) s = (Ok (Some r), s1) -> r_ver r < e_ver e ->
+  step_handler c inst u st fn n e s = (Err EGen, s1).
+Proof. exact future_event_retried. Qed.
+Print Assumptions C16_never_on_a_version_older_than_the_announcement.
